@@ -284,7 +284,7 @@ EFFECT_CONTRACTS = [
          clause='cli() raises only CLIError / InternalBug (documented), SystemExit (help, version) or OSError (output stream)',
          allowed=['CLIError', 'InternalBug', 'SystemExit', 'OSError'], min_functions=2),
     dict(id='raises.validators', prop='C18', kind='raises-only',
-         select={'argparse_validators': True},
+         select={'argparse_validators': True, 'functions': ['cnfgen/clitools/cmdline.py:probability']},
          clause='argparse type= validators raise only ArgumentTypeError',
          allowed=['ArgumentTypeError'], min_functions=4),
     dict(id='raises.actions', prop='C18', kind='raises-only',
